@@ -283,7 +283,7 @@ def _custom_gate_instance_from_dict(dict_, custom_gate_defs) -> _gates.Gate:
             f"Custom gate definition for {dict_['name']} missing from serialized dict"
         )
 
-    symbol_names = map(serialize_expr, gate_def.params_ordering)
+    symbol_names = dict_.get("free_symbols", [])
     return gate_def(
         *[deserialize_expr(param, symbol_names) for param in dict_.get("params", [])]
     )
